@@ -45,6 +45,7 @@ def run(ctx):
     ctx.analysed['bodies'].update(parent.keys())
     ctx.analysed['notes'].append({'external_callees': {k: list(v) for k, v in sorted(ext.items())}, 'cone_stopped_at': sorted(inner)})
     triage = cone.load_triage(TRIAGE)
+    ctx._cone = (G, {p: v for p, v in parent.items() if p not in stop}, None, srcs)
     import controls
     controls.panic_cone(ctx)
     cone.judge(ctx, 'U1.panic-source', cone.group_keys(srcs), triage,
@@ -213,3 +214,14 @@ def run(ctx):
                 ctx.add('U3.unix-mismatched-stream', 'Tcp/Invalid', loc(U.root), v == ('ctor', 'Err', (('ctor', 'LdapError::MismatchedStreamType', ()),)), 'a TCP or invalid pre-opened stream must be rejected for ldapi')
     for need in ('empty', 'colon', 'connect', 'unix-stream', 'mismatch'):
         ctx.add('U3.coverage', need, loc(U.root), need in seen, 'no Unix constructor path for ' + need)
+
+
+def run_thorough(ctx):
+    """cross-engine agreement: clippy's restriction lints (an independent, lexical implementation) inside the cone's bodies"""
+    if ctx.cfg != 'default':
+        return          # clippy is run with the default feature set: compared in that configuration only
+    G, parent, regions, srcs = ctx._cone
+    sites, info = engine.clippy_sites()
+    n = cone.clippy_agreement(ctx, 'U1.cross-engine-agreement', G, parent, regions, srcs, sites)
+    ctx.floor('U1.cross-engine', 'clippy sites inside the connection-setup cone', n, 3)
+    ctx.note('cross-engine agreement: %d constructs reported by clippy restriction lints lie inside the %d bodies of the cone; each must coincide with a MIR panic source' % (n, len(parent)))
